@@ -475,7 +475,9 @@ def run_js_bytes(res, tier, sample_idx, rng):
 
 
 # further samples for the JS leg: 4-byte characters at the start, in the middle and at the end, next to each other and next to line breaks
-JS_EXTRA_SAMPLES = [('utf-8', 'a,\ufffd\n\ufffd\ufffd,"\uffff\n\ufffd"\r\n'), ('utf-8', '😀'), ('utf-8', 'a😀😀\n\U0010ffff,€é\r\n😀'), ('utf-8', '"😀\r\n😀",\U00010000\r')]
+JS_EXTRA_SAMPLES = [('utf-8', 'a,\ufffd\n\ufffd\ufffd,"\uffff\n\ufffd"\r\n'), ('utf-8', '😀'), ('utf-8', 'a😀😀\n\U0010ffff,€é\r\n😀'), ('utf-8', '"😀\r\n😀",\U00010000\r'),
+                    # the very last character is a CR that ends an EMPTY line (old-Mac line ends with a trailing blank line)
+                    ('utf-8', 'a,1\rb,2\r\r'), ('utf-8', '\r'), ('utf-8', 'a\n\r'), ('utf-8', 'a,b\r\n\r'), ('utf-8', '"q\r"\r\r\r')]
 
 
 def plan(tier, seed):
